@@ -417,4 +417,241 @@ pub proof fn lemma_mchain_one(b: nat, d: nat, n: nat, j: nat, s: nat)
     }
 }
 
+
+// ------------------------------------------------------------------ the same, for any Montgomery radix R = 2^e (multiword ZmodN)
+
+/// m represents v for the radix r: m = v * r mod p
+pub open spec fn grep(m: nat, v: nat, p: nat, r: nat) -> bool {
+    m < p && v < p && m as int == (v as int * r as int) % (p as int)
+}
+
+pub proof fn lemma_grep_inj(m1: nat, v1: nat, m2: nat, v2: nat, p: nat, r: nat, e: nat)
+    requires p % 2 == 1, p > 0, r == pow2(e), grep(m1, v1, p, r), grep(m2, v2, p, r)
+    ensures (m1 == m2) == (v1 == v2)
+{
+    if m1 == m2 && v1 != v2 {
+        assert(cong(v1 as int * pow2(e) as int, v2 as int * pow2(e) as int, p as int)) by {
+            lemma_mod_twice(v1 as int * r as int, p as int);
+            lemma_mod_twice(v2 as int * r as int, p as int);
+        }
+        lemma_cancel_pow2(v1 as int, v2 as int, p as int, e);
+        lemma_cong_small(v1 as int, v2 as int, p as int);
+    }
+}
+
+pub proof fn lemma_grep_mul(x: nat, vx: nat, y: nat, vy: nat, z: nat, p: nat, r: nat, e: nat)
+    requires
+        p % 2 == 1, p > 0, r == pow2(e), grep(x, vx, p, r), grep(y, vy, p, r), z < p,
+        (z * r) % p == (x * y) % p,
+    ensures grep(z, (vx * vy) % p, p, r)
+{
+    let pi = p as int;
+    let ri = r as int;
+    lemma_cong_mod(vx as int * ri, pi);
+    lemma_cong_mod(vy as int * ri, pi);
+    lemma_cong_mul(x as int, vx as int * ri, y as int, pi);
+    lemma_cong_mul(y as int, vy as int * ri, vx as int * ri, pi);
+    assert(cong(x as int * y as int, (vx as int * ri) * (vy as int * ri), pi));
+    let w = (vx * vy) % p;
+    lemma_cong_mod(vx as int * vy as int, pi);
+    assert((vx as int * ri) * (vy as int * ri) == ((vx as int * vy as int) * ri) * ri) by {
+        lemma_mul_assoc(vx as int * ri, vy as int, ri);
+        lemma_mul_assoc(vx as int, ri, vy as int);
+        lemma_mul_comm(ri, vy as int);
+        lemma_mul_assoc(vx as int, vy as int, ri);
+    }
+    lemma_cong_mul((vx * vy) as int, w as int, ri, pi);
+    lemma_cong_mul((vx * vy) as int * ri, w as int * ri, ri, pi);
+    assert(cong(z as int * ri, (w as int * ri) * ri, pi));
+    lemma_cancel_pow2(z as int, w as int * ri, pi, e);
+    lemma_mod_bound((vx * vy) as int, pi);
+    lemma_small_mod(z, p);
+}
+
+/// r mod p represents 1 and p - (r mod p) represents p - 1
+pub proof fn lemma_grep_one(p: nat, r: nat, e: nat, r1: nat)
+    requires p >= 3, p % 2 == 1, r == pow2(e), r1 == r % p
+    ensures grep(r1, 1, p, r), 0 < r1 < p, grep((p - r1) as nat, (p - 1) as nat, p, r)
+{
+    let pi = p as int;
+    let ri = r as int;
+    lemma_mod_bound(ri, pi);
+    lemma_mul_one(ri);
+    if r1 == 0 {
+        lemma_fundamental_div_mod(ri, pi);
+        lemma_odd_not_div_pow2(pi, ri / pi, e, ri);
+    }
+    lemma_distrib_r_sub(pi, 1, ri);
+    lemma_cong_add_multiple(-ri, ri, pi);
+    lemma_fundamental_div_mod(ri, pi);
+    let k = ri / pi;
+    assert(-ri == (pi - r1 as int) - pi * (k + 1)) by { lemma_distrib_l(pi, k, 1); lemma_mul_one(pi); }
+    lemma_cong_add_multiple(pi - r1 as int, k + 1, pi);
+    lemma_mul_comm(pi, k + 1);
+    lemma_small_mod((p - r1) as nat, p);
+    assert(((pi - 1) * ri) % pi == pi - r1 as int);
+}
+
+// ------------------------------------------------------------------ LSB-first binary exponentiation (pseudoprime::pow_mod)
+
+/// e mod 2^(b+1) = e mod 2^b + 2^b * bit_b(e)
+pub proof fn lemma_low_bits_step(e: nat, b: nat)
+    ensures e % pow2(b + 1) == e % pow2(b) + pow2(b) * ((e / pow2(b)) % 2),
+        (e / pow2(b)) % 2 == 0 ==> e % pow2(b + 1) == e % pow2(b),
+        (e / pow2(b)) % 2 == 1 ==> e % pow2(b + 1) == e % pow2(b) + pow2(b),
+{
+    lemma_mul_one(pow2(b) as int);
+    lemma_pow2_pos(b);
+    lemma_pow2_unfold(b + 1);
+    lemma_mul_comm(2, pow2(b) as int);
+    lemma_breakdown(e as int, pow2(b) as int, 2);
+}
+
+/// squaring the base power: X^(2^b) squared is X^(2^(b+1))
+pub proof fn lemma_pms_pow2_step(x: nat, b: nat, n: nat)
+    requires n > 0
+    ensures pow_mod_spec(x, pow2(b + 1), n) == (pow_mod_spec(x, pow2(b), n) * pow_mod_spec(x, pow2(b), n)) % n
+{
+    lemma_pow2_unfold(b + 1);
+    lemma_pms_double(x, pow2(b), n);
+}
+
+// ------------------------------------------------------------------ a Miller round started from an even multiple of the odd part
+
+/// n = odd_part(n) * 2^val2(n) for n > 0
+pub proof fn lemma_val2_decomp(n: nat)
+    requires n > 0
+    ensures n == odd_part(n) * pow2(val2(n)), odd_part(n) % 2 == 1
+    decreases n
+{
+    lemma2_to64();
+    if n % 2 == 1 {
+        lemma_mul_one(n as int);
+    } else {
+        lemma_val2_decomp(n / 2);
+        lemma_pow2_unfold(val2(n));
+        let o = odd_part(n / 2);
+        let h = pow2(val2(n / 2));
+        lemma_mul_assoc(o as int, 2, h as int);
+        lemma_mul_comm(o as int, 2);
+        lemma_mul_assoc(2, o as int, h as int);
+    }
+}
+
+/// chain started at d' = d 2^o is the chain of d shifted by o
+pub proof fn lemma_mchain_shift(b: nat, d: nat, o: nat, n: nat, j: nat)
+    ensures mchain(b, d * pow2n(o), n, j) == mchain(b, d, n, j + o)
+{
+    lemma_pow2n_is_pow2(o); lemma_pow2n_is_pow2(j); lemma_pow2n_is_pow2(j + o);
+    lemma_pow2_adds(o, j);
+    lemma_mul_assoc(d as int, pow2(o) as int, pow2(j) as int);
+}
+
+pub proof fn lemma_mchain_one_fwd(b: nat, d: nat, n: nat, j: nat, s: nat)
+    requires n > 2, j <= s, mchain(b, d, n, j) == 1
+    ensures mchain(b, d, n, s) == 1
+{
+    lemma_mchain_one(b, d, n, j, s);
+}
+
+/// a witness in the shifted chain, from a witness in the true chain
+pub proof fn lemma_mwit_shift(b: nat, d: nat, o: nat, n: nat, s: nat, r: nat)
+    requires n > 2, r <= s + o, mchain(b, d, n, r) == (n - 1) as nat
+    ensures mchain(b, d * pow2n(o), n, 0) == 1 || mwit(b, d * pow2n(o), n, s)
+{
+    let dd = d * pow2n(o);
+    if r >= o {
+        lemma_mchain_shift(b, d, o, n, (r - o) as nat);
+        assert(mwit(b, dd, n, (r - o) as nat));
+        lemma_mwit_mono(b, dd, n, (r - o) as nat, s);
+    } else {
+        // V_r = -1, so V_(r+1) = 1 and the shifted chain starts at 1
+        lemma_mchain_next(b, d, n, r);
+        let m = (n - 1) as nat;
+        assert((m * m) % n == 1) by {
+            assert(m * m == n * (n - 2) + 1) by (nonlinear_arith) requires m == n - 1, n > 2;
+            lemma_mod_multiples_vanish((n - 2) as int, 1, n as int);
+            lemma_mul_comm(n as int, (n - 2) as int);
+            lemma_small_mod(1, n);
+        }
+        lemma_mchain_one_fwd(b, d, n, r + 1, o);
+        lemma_mchain_shift(b, d, o, n, 0);
+    }
+}
+
+/// sprp for the true decomposition implies acceptance by the round started at d' = d 2^o with s squarings (s + o = val2)
+pub proof fn lemma_sprp_shift(n: nat, b: nat, dd: nat, s: nat)
+    requires n > 2, n % 2 == 1, sprp(n, b), dd > 0, (n - 1) as nat == dd * pow2(s)
+    ensures mchain(b, dd, n, 0) == 1 || mwit(b, dd, n, s)
+{
+    let d = odd_part((n - 1) as nat);
+    let st = val2((n - 1) as nat);
+    lemma_val2_decomp(dd);
+    let o = val2(dd);
+    let d2 = odd_part(dd);
+    // n - 1 = d2 2^o 2^s = d2 2^(o+s)
+    lemma_pow2_adds(o, s);
+    lemma_mul_assoc(d2 as int, pow2(o) as int, pow2(s) as int);
+    lemma_val2_char((n - 1) as nat, o + s, d2);
+    assert(d == d2 && st == o + s);
+    lemma_pow2n_is_pow2(o);
+    assert(dd == d * pow2n(o));
+    lemma_sprp_chain(n, b);
+    lemma_small_mod(1, n);
+    if mchain(b, d, n, 0) == 1 {
+        lemma_mchain_one_fwd(b, d, n, 0, o);
+        lemma_mchain_shift(b, d, o, n, 0);
+    } else {
+        lemma_mwit_exists(b, d, n, st);
+        let r = choose|r: nat| r <= st && #[trigger] pow_mod_spec(b, d * pow2n(r), n) == (n - 1) as nat;
+        lemma_mwit_shift(b, d, o, n, s, r);
+    }
+}
+
+
+/// the decomposition computed by `pseudoprime` for a multiword odd p: s = tz(low word - 1), d' = p >> s
+pub proof fn lemma_miller_decomp_big(pv: nat, low: u64, s: u32)
+    requires
+        pv % 2 == 1, pv >= 0x1_0000_0000_0000_0000, low as nat == pv % 0x1_0000_0000_0000_0000, low >= 1,
+        s == u64_trailing_zeros((low - 1) as u64),
+    ensures
+        1 <= s <= 64,
+        (pv - 1) as nat == (pv / pow2(s as nat)) * pow2(s as nat),
+        pv / pow2(s as nat) > 0,
+{
+    let w = 0x1_0000_0000_0000_0000int;
+    lemma2_to64();
+    lemma_fundamental_div_mod(pv as int, w);
+    let hi = pv as int / w;
+    let q = (low - 1) as u64;
+    lemma_mod_of_mod(pv as int, w, 2);
+    assert(low % 2 == 1);
+    if q == 0 {
+        axiom_u64_trailing_zeros(0);
+        assert(u64_trailing_zeros(0) == 64);
+        lemma_mul_comm(w, hi);
+        assert(pv as int - 1 == hi * w);
+        assert(hi > 0);
+    } else {
+        lemma_tz_arith(q, s);
+        let ps = pow2(s as nat) as int;
+        lemma_pow2_pos(s as nat);
+        if s == 0 { assert(ps == 1); }
+        lemma_pow2_adds(s as nat, (64 - s) as nat);
+        let pr = pow2((64 - s) as nat) as int;
+        lemma_fundamental_div_mod(q as int, ps);
+        let qq = q as int / ps;
+        let m = pr * hi + qq;
+        // pv - 1 = w hi + q = ps (pr hi) + ps qq = ps m
+        lemma_mul_assoc(ps, pr, hi);
+        lemma_distrib_l(ps, pr * hi, qq);
+        assert(pv as int - 1 == ps * m);
+        lemma_pow2_pos((64 - s) as nat);
+        lemma_mul_pos(pr, hi);
+        assert(ps >= 2) by { lemma_pow2_unfold(s as nat); lemma_pow2_pos((s - 1) as nat); }
+        lemma_fundamental_div_mod_converse(pv as int, ps, m, 1);
+        lemma_mul_comm(ps, m);
+    }
+}
+
 } // verus!
